@@ -19,6 +19,8 @@ Property theorems over the *generated* definitions of `Gen/CFast.lean` (the C fa
   specification `Tagged.slowSpec` (trusted: they delegate to CPython's `PyNumber_*`);
 * `⊙_no_ub`         — the inline code never executes an operation C leaves undefined.
 -/
+set_option linter.unusedSimpArgs false
+set_option linter.unusedVariables false
 namespace C15
 open CFast Tagged CSem CFastProofs FixedWidth
 
@@ -566,12 +568,19 @@ theorem fixed_signed_exact {w : Nat} (a b : BitVec w) :
     (InRange w true (-a.toInt) → fwVal true (FixedWidth.neg a) = -fwVal true a) :=
   ⟨signed_add_exact a b, signed_sub_exact a b, signed_mul_exact a b, signed_neg_exact a⟩
 
+example : InRange 16 true (32767 : Int) ∧ ¬ InRange 16 true (32768 : Int) ∧ InRange 8 false (255 : Int) := by decide
+example : fwVal true (intOp true .add (32767#16) (1#16)) = -32768 := by decide    -- wraps when the sum does not fit
+example : fwVal true (intOp true .mul (100#16) (3#16)) = 300 := by decide
+
 /-- `u8` (any unsigned width) `+ - *` wrap modulo `2^w` -/
 theorem u8_wraps (a b : BitVec 8) :
     fwVal false (intOp false .add a b) = (fwVal false a + fwVal false b) % 256 ∧
     fwVal false (intOp false .sub a b) = (fwVal false a - fwVal false b) % 256 ∧
     fwVal false (intOp false .mul a b) = (fwVal false a * fwVal false b) % 256 :=
   ⟨unsigned_add_wrap a b, unsigned_sub_wrap a b, unsigned_mul_wrap a b⟩
+
+example : fwVal false (intOp false .add (200#8) (100#8)) = 44 := by decide        -- 300 mod 256
+example : fwVal false (intOp false .sub (3#8) (5#8)) = 254 := by decide
 
 /-- shifts with an in-range count: `<<` exact whenever the product fits, `>>` is floor division -/
 theorem fixed_shifts_exact {w : Nat} (a : BitVec w) (k : Nat) :
@@ -592,12 +601,17 @@ theorem inline_divide_exact :
   ⟨inlineDivide_exact64, inlineDivide_exact32, inlineDivide_exact16,
    inlineMod_exact64, inlineMod_exact32, inlineMod_exact16⟩
 
+example : (inlineDivide (BitVec.ofInt 64 (-7)) 2#64).toInt = -4 ∧ (inlineMod (BitVec.ofInt 64 (-7)) 2#64).toInt = 1 ∧
+    (inlineDivide 7#16 (BitVec.ofInt 16 (-2))).toInt = -4 ∧ (inlineMod 7#16 (BitVec.ofInt 16 (-2))).toInt = -1 := by decide
+
 /-- `u8 // u8`, `u8 % u8`: `ZeroDivisionError` iff the divisor is 0, the exact quotient / remainder otherwise -/
 theorem u8_divide_spec (a b : BitVec 8) :
     (u8Divide a b = if b.toNat = 0 then .raise "ZeroDivisionError" 239#8 else .fast (a / b)) ∧
     (u8Mod a b = if b.toNat = 0 then .raise "ZeroDivisionError" 239#8 else .fast (a % b)) ∧
     (a / b).toNat = a.toNat / b.toNat ∧ (a % b).toNat = a.toNat % b.toNat :=
   ⟨u8Divide_spec a b, u8Mod_spec a b, BitVec.toNat_udiv, BitVec.toNat_umod⟩
+
+example : u8Divide 200#8 0#8 = .raise "ZeroDivisionError" 239#8 ∧ u8Divide 200#8 7#8 = .fast 28#8 := by decide
 
 /-! ## conversions `int → iN` (an exception exactly when out of range, never a truncated value) and back -/
 
@@ -761,13 +775,117 @@ theorem ir_inline_narrow (a : BitVec 32) (c : BitVec 16) :
     simp only [IrOps.fdiv_i32_c7, IrOps.mod_i32_cm7, IrOps.fdiv_i16_c3, IrOps.mod_i16_cm3, inlineDivide, inlineMod,
       apply_ite Res.fast]
 
-/-! ## `int / int` and `int <op> float`: where the compiled code is *not* exact (findings F24, F25)
+/-- the IR of `a ⊙ b` on two `int`s calls exactly the C function the theorems above are about, and adds nothing
+    (the `is_error` test after `// % << >>` can never fire on the inline path: a short word is never the error
+    value `CPY_INT_TAG`) -/
+theorem ir_int_arith (a b : BitVec 64) :
+    IrOps.add_int a b = CPyTagged_Add a b ∧ IrOps.sub_int a b = CPyTagged_Subtract a b ∧
+    IrOps.mul_int a b = CPyTagged_Multiply a b ∧ IrOps.and__int a b = CPyTagged_And a b ∧
+    IrOps.or__int a b = CPyTagged_Or a b ∧ IrOps.xor_int a b = CPyTagged_Xor a b ∧
+    IrOps.neg_int a = CPyTagged_Negate a ∧ IrOps.inv_int a = CPyTagged_Invert a ∧
+    IrOps.fdiv_int a b = CPyTagged_FloorDivide a b ∧ IrOps.mod_int a b = CPyTagged_Remainder a b ∧
+    IrOps.lsh_int a b = CPyTagged_Lshift a b ∧ IrOps.rsh_int a b = CPyTagged_Rshift a b := by
+  refine ⟨?_, ?_, ?_, ?_, ?_, ?_, ?_, ?_, ?_, ?_, ?_, ?_⟩
+  · unfold IrOps.add_int
+    generalize hr : CPyTagged_Add a b = r
+    cases r with
+    | fast v => rfl
+    | slow c => rfl
+    | raise e v => rw [add_eq] at hr; exact absurd hr not_raise_ite
+  · unfold IrOps.sub_int
+    generalize hr : CPyTagged_Subtract a b = r
+    cases r with
+    | fast v => rfl
+    | slow c => rfl
+    | raise e v => rw [sub_eq] at hr; exact absurd hr not_raise_ite
+  · unfold IrOps.mul_int
+    generalize hr : CPyTagged_Multiply a b = r
+    cases r with
+    | fast v => rfl
+    | slow c => rfl
+    | raise e v => rw [multiply_eq] at hr; exact absurd hr not_raise_ite
+  · unfold IrOps.and__int
+    generalize hr : CPyTagged_And a b = r
+    cases r with
+    | fast v => rfl
+    | slow c => rfl
+    | raise e v => rw [and_eq] at hr; exact absurd hr not_raise_ite
+  · unfold IrOps.or__int
+    generalize hr : CPyTagged_Or a b = r
+    cases r with
+    | fast v => rfl
+    | slow c => rfl
+    | raise e v => rw [or_eq] at hr; exact absurd hr not_raise_ite
+  · unfold IrOps.xor_int
+    generalize hr : CPyTagged_Xor a b = r
+    cases r with
+    | fast v => rfl
+    | slow c => rfl
+    | raise e v => rw [xor_eq] at hr; exact absurd hr not_raise_ite
+  · unfold IrOps.neg_int
+    generalize hr : CPyTagged_Negate a = r
+    cases r with
+    | fast v => rfl
+    | slow c => rfl
+    | raise e v => rw [neg_eq] at hr; exact absurd hr not_raise_ite
+  · unfold IrOps.inv_int
+    generalize hr : CPyTagged_Invert a = r
+    cases r with
+    | fast v => rfl
+    | slow c => rfl
+    | raise e v => rw [invert_eq] at hr; exact absurd hr not_raise_ite
+  · unfold IrOps.fdiv_int
+    generalize hr : CPyTagged_FloorDivide a b = r
+    cases r with
+    | fast v =>
+      rw [floorDivide_eq] at hr
+      obtain ⟨hc, rfl⟩ := fast_of_ite hr
+      simp [short_ne_one _ (enc_short _ (floorDivide_fits a b hc)).1]
+    | slow c => rfl
+    | raise e v => rw [floorDivide_eq] at hr; exact absurd hr not_raise_ite
+  · unfold IrOps.mod_int
+    generalize hr : CPyTagged_Remainder a b = r
+    cases r with
+    | fast v =>
+      rw [remainder_eq] at hr
+      obtain ⟨hc, rfl⟩ := fast_of_ite hr
+      simp [short_ne_one _ (enc_short _ (remainder_fits a b hc)).1]
+    | slow c => rfl
+    | raise e v => rw [remainder_eq] at hr; exact absurd hr not_raise_ite
+  · unfold IrOps.lsh_int
+    generalize hr : CPyTagged_Lshift a b = r
+    cases r with
+    | fast v =>
+      rw [lshift_eq] at hr
+      obtain ⟨hc, rfl⟩ := fast_of_ite hr
+      simp [short_ne_one _ (enc_short _ (hc.2.2.2.2)).1]
+    | slow c => rfl
+    | raise e v => rw [lshift_eq] at hr; exact absurd hr not_raise_ite
+  · unfold IrOps.rsh_int
+    generalize hr : CPyTagged_Rshift a b = r
+    cases r with
+    | fast v =>
+      rw [rshift_eq] at hr
+      obtain ⟨hc, rfl⟩ := fast_of_ite hr
+      simp [short_ne_one _ (enc_short _ (rshift_fits a b hc)).1]
+    | slow c => rfl
+    | raise e v => rw [rshift_eq] at hr; exact absurd hr not_raise_ite
+
+theorem ir_int_augmented (a b : BitVec 64) :
+    IrOps.iadd_int a b = IrOps.add_int a b ∧ IrOps.isub_int a b = IrOps.sub_int a b ∧
+    IrOps.imul_int a b = IrOps.mul_int a b ∧ IrOps.ifdiv_int a b = IrOps.fdiv_int a b ∧
+    IrOps.imod_int a b = IrOps.mod_int a b ∧ IrOps.iand_int a b = IrOps.and__int a b ∧
+    IrOps.ior_int a b = IrOps.or__int a b ∧ IrOps.ixor_int a b = IrOps.xor_int a b ∧
+    IrOps.ilsh_int a b = IrOps.lsh_int a b ∧ IrOps.irsh_int a b = IrOps.rsh_int a b :=
+  ⟨rfl, rfl, rfl, rfl, rfl, rfl, rfl, rfl, rfl, rfl⟩
+
+/-! ## `int / int` and `int <op> float`: where the compiled code is *not* exact (findings C15-a `int-truediv-double-rounding`, C15-b `int-float-comparison-converts-int`)
 
 The full statements ("compiled true division / mixed comparison equals CPython's for all operands") are false
 of the current code; they stay visible as refuted, with the witnesses replayed on the real code on every
 run (`harness/c15/run.py`, stream `witness`), and the part that does hold is stated as `…_partial`. -/
 
-/-- F24: `CPyTagged_TrueDivide` rounds the operands before dividing: `(2^53+1) / 3` is
+/-- finding C15-a: `CPyTagged_TrueDivide` rounds the operands before dividing: `(2^53+1) / 3` is
     `3002399751580330.5` compiled, `3002399751580331.0` in CPython. -/
 theorem not_truediv_exact : ¬ ∀ a b : Int, b ≠ 0 →
     (FloatConv.compiledTrueDiv a b).same (FloatConv.cpythonTrueDiv a b) = true := by
@@ -781,7 +899,7 @@ theorem truediv_exact_partial (a b : Int)
     (ha : -9007199254740992 ≤ a ∧ a ≤ 9007199254740992) (hb : -9007199254740992 ≤ b ∧ b ≤ 9007199254740992) :
     FloatConv.compiledTrueDiv a b = FloatConv.cpythonTrueDiv a b := FloatConv.truediv_exact_partial a b ha hb
 
-/-- F25: comparing an `int` with a `float` goes through `(double)int`: `2^53+1 == 2.0^53` holds after the
+/-- finding C15-b: comparing an `int` with a `float` goes through `(double)int`: `2^53+1 == 2.0^53` holds after the
     conversion although the integers differ. -/
 theorem not_int_float_compare_exact : ¬ ∀ a f : Int, (FloatConv.toDouble a = f ↔ a = f) := by
   intro h
